@@ -1,6 +1,7 @@
 package c18
 
 import (
+	"encoding/json"
 	"errors"
 	"fmt"
 	"strings"
@@ -159,7 +160,9 @@ func genChain(r *core.Rand, mode string) (*chainCase, []string) {
 	if mode == "mitm" {
 		scheme = "https"
 	}
-	if r.Chance(35) {
+	// origin-form on a TLS listener means https: through an upstream proxy that would be a CONNECT made by the
+	// transport (not this scenario's subject), so there every request is absolute-form http
+	if r.Chance(35) || mode == "tls-up-https" {
 		q.Absolute = true
 		q.Scheme = scheme
 		q.Authority = "origin.test"
@@ -250,11 +253,15 @@ func genLoop(r *core.Rand) *loopCase {
 
 func Run(ctx *core.Ctx) {
 	ctx.SetRule("chain cases: one request per client connection through the real proxy (configurations direct / direct with header rules / " +
-		"upstream proxy / MITM; origin-form, absolute-form, 18% CONNECT; HTTP/1.0 and 1.1) carrying a generated Via chain of 0-5 elements " +
+		"http, https and socks5 upstream proxy / MITM / TLS listener / TLS listener with https upstream; origin-form, absolute-form, 18% CONNECT " +
+		"compared with Req.processConnect; HTTP/1.0 and 1.1) carrying a generated Via chain of 0-5 elements " +
 		"(foreign hops with comments, the instance's own element learned from a first request, same-name-other-suffix tags, near misses of the tag " +
 		"shape, the tag embedded in a comment / longer pseudonym) split over 1-3 field lines with varying separators and name spellings; loop cases: " +
 		"a proxy chained to itself and two same-name instances A->B->A (upstream-proxy links, connect-to links, CONNECT), and A->B->origin, every link " +
-		"through a counting pass-through peer. Non-trivial = the request carries at least one Via line, or it is a loop case; distinct = distinct " +
+		"through a counting pass-through peer; fleet cases: self / A->B->A / A->B->terminal over every mix of http, https (TLS listeners, TLS-terminating relays) and " +
+		"socks5 upstream links, plain and CONNECT, entered through the main or an extra listener, the instances built from separate default configs, copies of one " +
+		"config value, the same config object twice, or configs differing only in Name, judged at every hop against a trace computed from the property on instance " +
+		"indices, the observed elements of every fleet asserted injective. Non-trivial = the request carries at least one Via line, or it is a loop / fleet case; distinct = distinct " +
 		"(configuration, request bytes with the tag as a placeholder)")
 	p := newPools(ctx)
 	defer p.closeAll()
@@ -262,12 +269,14 @@ func Run(ctx *core.Ctx) {
 		p.run(ctx, c)
 	}
 	nChain := ctx.N(8000, 60000)
-	nLoop := ctx.N(500, 3500)
-	modes := []string{"direct", "rules", "upstream", "mitm"}
+	nLoop := ctx.N(650, 4500)
+	// upstream scheme × listener kind: http / https / socks5 upstream, plain / TLS listener
+	modes := []string{"direct", "rules", "upstream", "mitm", "up-https", "up-socks5", "tls", "tls-up-https"}
 
 	type job struct {
 		chain *chainCase
 		loop  *loopCase
+		fleet *fleetCase
 	}
 	jobs := make(chan job, 64)
 	var wg sync.WaitGroup
@@ -283,6 +292,9 @@ func Run(ctx *core.Ctx) {
 						continue
 					}
 					e.runChain(ctx, j.chain)
+				} else if j.fleet != nil {
+					raw, _ := json.Marshal(j.fleet)
+					p.run(ctx, raw)
 				} else {
 					e, err := p.loop(j.loop.Topology, j.loop.Variant)
 					if err != nil {
@@ -319,8 +331,18 @@ func Run(ctx *core.Ctx) {
 		jobs <- job{chain: cc}
 		if i%every == 0 && loops < nLoop {
 			lr := ctx.Rng.Sub()
+			if loops%5 < 3 {
+				// fleets: every upstream scheme and listener kind, every way of obtaining the configuration values
+				fc := genFleet(lr)
+				if loops < 3 {
+					ctx.Sample(fc)
+				}
+				loops++
+				jobs <- job{fleet: fc}
+				continue
+			}
 			lc := genLoop(lr)
-			if loops < 2 {
+			if loops < 5 {
 				ctx.Sample(lc)
 			}
 			loops++
